@@ -671,7 +671,14 @@ func (g *TG) PathFor(t *Ty) (string, *Ty) {
 		return common.Pick(r, []string{".", "..", ".[]?", ".a?", "empty"}), tyAny
 	}
 	s := g.sub()
-	switch r.Intn(12) {
+	switch r.Intn(13) {
+	case 12:
+		// a binding inside the path expression: the source (identity or a navigation) and the
+		// destructuring steps of the pattern are evaluated as values, the body navigates on
+		b, tb := s.PathFor(t)
+		src := common.Pick(r, []string{".", ".", ".", ".a?", ".[0]?", "(., .)", "first(.[]?)"})
+		pat := common.Pick(r, []string{"$v", "[$v]", "[$v, $w]", "{a: $v}", "{$a}", "{a: [$v]}", "[$v] ?// $v", "{a: $v} ?// [$v] ?// $v", "{$a, b: [$w]}"})
+		return "(" + src + " as " + pat + " | " + b + ")", tb
 	case 0, 1, 2, 3:
 		a, ta := s.PathFor(t)
 		b, tb := s.PathFor(ta)
